@@ -24,6 +24,8 @@ func (p *Undefined) WriteTo(w io.Writer) (int64, error) {
 }
 
 func (p *Undefined) UnmarshalBinary(data []byte) error {
-	p.data = data
+	// a BinaryUnmarshaler must copy the data if it wishes to retain it
+	p.data = make([]byte, len(data))
+	copy(p.data, data)
 	return nil
 }
